@@ -47,7 +47,7 @@ class Lock:
 
 # ------------------------------------------------------------------ builds
 
-TRANSLATOR_FOR = {"extract_orderings.py": ("C07",), "extract_bounds.py": ("C14",), "extract_surface.py": ("C14",)}
+TRANSLATOR_FOR = {"extract_orderings.py": ("C07",), "extract_bounds.py": ("C14",), "extract_surface.py": ("C14",), "extract_adaptors.py": ("C13",)}
 
 
 def regenerate_gen(prop=None):
@@ -109,7 +109,7 @@ def strip_comments(txt):
     return "".join(out)
 
 
-FORBIDDEN_ANYWHERE = r"\b(Admitted|admit|Axiom|Axioms|Parameter|Parameters|Conjecture|Conjectures|Unset\s+Guard|bypass_check|Guard\s+Checking|Positivity\s+Checking|Universe\s+Checking|type-in-type|impredicative-set|Admit\s+Obligations|native_compute)\b"
+FORBIDDEN_ANYWHERE = r"\b(Admitted|admit|give_up|Abort|Axiom|Axioms|Parameter|Parameters|Conjecture|Conjectures|Extract\s+Constant|Extract\s+Inlined|Declare\s+ML|exact_no_check|vm_cast_no_check|Unset\s+Guard|bypass_check|Guard\s+Checking|Positivity\s+Checking|Universe\s+Checking|type-in-type|impredicative-set|Admit\s+Obligations|native_compute)\b"
 FORBIDDEN_OUTSIDE_SECTION = r"\b(Hypothesis|Hypotheses|Variable|Variables|Context)\b"
 
 
@@ -241,8 +241,10 @@ def run_chk(cases_path, traces_text, props):
         w = line.split()
         if not w:
             continue
-        if w[0] == "chk" and len(w) >= 4:
+        if w[0] == "chk" and len(w) >= 4 and w[2] != "-":
             res.setdefault(w[1], {})[w[2]] = (w[3] == "ok")
+        elif w[0] == "chk" and len(w) >= 4:
+            flags.setdefault(w[1], []).append("nocase")
         elif w[0] == "flag":
             flags.setdefault(w[1], []).append(" ".join(w[2:]))
     return res, flags
@@ -377,7 +379,9 @@ def known_match(prop, viol, known):
             elif key == "probe":
                 ok = ok and viol.get("probe") == val
             elif key == "class":
-                ok = ok and val in trace_classes(viol.get("impl_trace"))
+                # a wrap of a counter explains wrong deliveries judged by the extracted checkers -- not a dead process,
+                # a hang, a leak, a twin difference, a probe or an undocumented panic
+                ok = ok and val in trace_classes(viol.get("impl_trace")) and str(viol.get("checker") or "").startswith("chk_")
             else:
                 ok = False
         if ok:
@@ -405,7 +409,7 @@ PROPS = {
     "C15": dict(chk=[8], n=(300, 2000), tiny=(0, 10)),
     "C16": dict(chk=[16], n=(600, 6000), tiny=(0, 0), modes=["wrapping", "checked"]),
     "C17": dict(chk=[17, 8, 2, 3], n=(300, 2500), tiny=(0, 10), modes=["wrapping", "checked"]),
-    "C18": dict(chk=[8, 2], n=(500, 4000), tiny=(0, 10), progress=True),
+    "C18": dict(chk=[8, 2, 1], n=(500, 4000), tiny=(0, 10), progress=True),
     "C19": dict(chk=[2, 8, 5], n=(300, 2000), tiny=(6, 30)),
 }
 
@@ -670,6 +674,10 @@ def random_search(prop, cfg, cases, binp, props_chk, out, label="impl-random"):
             rec["checker"] = "undocumented-panic"
             rec["impl_trace"] = il
             out["violations"].append(rec)
+        elif [f for f in fl if not f.startswith("leftover")] or any(l.startswith("unsupported") for l in il):
+            rec["what"] = "flags on a harness-chosen schedule: %s" % "; ".join(fl)
+            rec["impl_trace"] = il
+            out["divergences"].append(rec)
 
 
 def dfs_cases(prop, tiny, limit):
@@ -695,8 +703,29 @@ def dfs_cases(prop, tiny, limit):
 
 
 def run_check(prop, tier, seed):
+    try:
+        return run_check_inner(prop, tier, seed)
+    except RuntimeError as ex:
+        # the extracted driver failed or timed out: the correspondence cannot be evaluated
+        path = os.path.join(ROOT, "replays", "%s-unproved.json" % prop)
+        write_json(path, dict(property=prop, what="no failing input found; the property is no longer shown to hold",
+                              proof_obligations_that_do_not_check=["the check could not be completed: %s" % str(ex)[-1500:]]))
+        print("VIOLATION property=%s replay=%s no-failing-input-found" % (prop, path))
+        write_json(os.path.join(ROOT, "evidence", "%s.json" % prop),
+                   dict(property_id=prop, tier=tier, seed=seed, level=LEVELS.get(prop, "proof"),
+                        coverage=dict(evaluations=0, distinct_nontrivial=0, rule="the check could not be completed", samples=[dict(error=str(ex)[-500:])]),
+                        assumptions=COMMON_ASSUMPTIONS, wall_s=0.0, violations=1))
+        return 1
+
+
+def run_check_inner(prop, tier, seed):
     t0 = time.time()
     os.makedirs(BUILD, exist_ok=True)
+    for stale in ("%s-violation.json" % prop, "%s-unproved.json" % prop):
+        try:
+            os.unlink(os.path.join(ROOT, "replays", stale))
+        except OSError:
+            pass
     cfg = PROPS.get(prop)
     special = SPECIAL.get(prop)
     known = load_known()
@@ -720,7 +749,8 @@ def run_check(prop, tier, seed):
     elif os.path.exists(os.path.join(COQ, "props", prop + ".v")):
         theorems = re.findall(r"^\s*Theorem\s+([A-Za-z0-9_']+)", open(os.path.join(COQ, "props", prop + ".v")).read(), re.M)
     if tier == "thorough" and ok and proofs_ok:
-        rc, out = sh("coqchk -silent -o -Q theories OCI -Q gen OCI.gen -Q proofs OCI.proofs -Q props OCI.props OCI.props.%s" % prop, cwd=COQ, timeout=3000)
+        with Lock("coq"):
+            rc, out = sh("coqchk -silent -o -Q theories OCI -Q gen OCI.gen -Q proofs OCI.proofs -Q props OCI.props OCI.props.%s" % prop, cwd=COQ, timeout=3000)
         open(os.path.join(BUILD, "logs", "coqchk_%s.log" % prop), "w").write(out)
         if rc != 0:
             problems.append("coqchk rejects the compiled theorems of %s: %s" % (prop, out.strip()[-800:]))
@@ -777,7 +807,7 @@ def run_check(prop, tier, seed):
         if special is not None and ok:
             special(prop, tier, seed, bins, out, problems)
         # widen the search when a proof obligation or the correspondence broke and no failing input is known yet
-        if (problems or out["divergences"]) and not out["violations"] and cfg is not None and bins:
+        if (problems or out["divergences"]) and not [v for v in out["violations"] if known_match(prop, v, known) is None] and cfg is not None and bins:
             for k in range(1, 4 if tier == "quick" else 10):
                 for mode in modes:
                     if mode not in bins:
@@ -894,6 +924,18 @@ def do_replay(prop, path):
         return 1
     out = dict(evaluations=0, distinct_nontrivial=0, overlapping=0, boundary=0, traces_validated_against_impl=0,
                random_schedules=0, dfs_schedules=0, violations=[], divergences=[], samples=[], sigs=set())
+    if stream == "probes19":
+        binp, blog = build_harness("release")
+        try:
+            SPECIAL[prop](prop, "quick", 1, {"wrapping": binp}, out, [])
+        finally:
+            os.unlink(binp)
+        hit = [v for v in out["violations"] if v.get("probe") == rec.get("probe")]
+        for v in hit:
+            print(v["what"])
+            print("\n".join(v.get("impl_trace") or []))
+        print("---- probe %s: %s" % (rec.get("probe"), "still fails" if hit else "passes now"))
+        return 1 if hit else 0
     if stream == "probes":
         import c14
         c14.special(prop, "thorough", 1, {}, out, [])
@@ -1223,15 +1265,25 @@ def special_c15(prop, tier, seed, bins, out, problems):
         if g != (0, 0):
             # a leak grows with every repetition: confirm on the case alone with more repetitions (the figures of one run can
             # be disturbed by the teardown of the worker threads)
-            c5 = json.loads(json.dumps(c))
-            c5["reps"] = 6
-            t5, d5 = run_impl(binp, [c5])
-            m5 = re.search(r"^alloc (\S+) reps=6 growth_bytes=(-?\d+) growth_blocks=(-?\d+)$", t5, re.M)
-            g5 = (int(m5.group(2)), int(m5.group(3))) if m5 else None
-            if g5 is not None and (g5[0] > 0 or g5[1] > 0):
+            g6 = g12 = None
+            for reps in (6, 12):
+                cr = json.loads(json.dumps(c))
+                cr["reps"] = reps
+                tr_, dr_ = run_impl(binp, [cr])
+                mr = re.search(r"^alloc (\S+) reps=%d growth_bytes=(-?\d+) growth_blocks=(-?\d+)$" % reps, tr_, re.M)
+                gr = (int(mr.group(2)), int(mr.group(3))) if mr else None
+                if reps == 6:
+                    g6 = gr
+                else:
+                    g12 = gr
+            if g6 is None or g12 is None:
+                out["divergences"].append(dict(case=c, stream="allocator", impl_trace=il,
+                                               what="the live heap grew (%d bytes) but the confirmation runs gave no allocator report" % g[0]))
+            elif (g6[0] > 0 or g6[1] > 0) and (g12[0] > g6[0] or g12[1] > g6[1]):
                 out["violations"].append(dict(case=c, stream="allocator", checker="alloc",
-                                              impl_trace=il + ["alloc reps=3 growth_bytes=%d growth_blocks=%d" % g, "alloc reps=6 growth_bytes=%d growth_blocks=%d" % g5],
-                                              what="repeating create / consume / drop grows the live heap: %d bytes in %d blocks over five repetitions (%d bytes over two)" % (g5[0], g5[1], g[0])))
+                                              impl_trace=il + ["alloc reps=3 growth_bytes=%d growth_blocks=%d" % g, "alloc reps=6 growth_bytes=%d growth_blocks=%d" % g6,
+                                                               "alloc reps=12 growth_bytes=%d growth_blocks=%d" % g12],
+                                              what="repeating create / consume / drop grows the live heap: %d bytes over five repetitions, %d bytes over eleven" % (g6[0], g12[0])))
     out["evaluations"] += len(rep_cases)
     out["traces_validated_against_impl"] += measured
     # zero-sized elements with a destructor
@@ -1427,22 +1479,26 @@ def special_c19(prop, tier, seed, bins, out, problems):
             problems.append("C19 probes: " + err)
         else:
             pdir = os.path.join(ROOT, "probes", "c19")
-            os.makedirs(os.path.join(BUILD, "c19"), exist_ok=True)
+            pdir19 = os.path.join(BUILD, "c19-%d" % os.getpid())
+            os.makedirs(pdir19, exist_ok=True)
             for src in sorted(glob.glob(os.path.join(pdir, "*.rs"))):
                 name = os.path.basename(src)[:-3]
-                exe = os.path.join(BUILD, "c19", name)
+                exe = os.path.join(pdir19, name)
                 res = c14.rustc(src, exe, rlib, deps, True)
                 out["evaluations"] += 1
                 if not res["ok"]:
                     problems.append("C19 probe %s does not compile against the current tree: %s" % (name, " / ".join(res["rendered"])[:600]))
                     continue
-                rc, txt = sh([exe], timeout=60)
+                rc, txt = sh([exe], timeout=120)
                 lines = txt.strip().splitlines()
-                if rc != 0 or not any(l.startswith("VERDICT: PASS") for l in lines):
+                if rc == 124 or rc == "timeout":
+                    problems.append("C19 probe %s did not finish in time" % name)
+                elif rc != 0 or not any(l.startswith("VERDICT: PASS") for l in lines):
                     out["violations"].append(dict(case=None, stream="probes19", checker="probe", probe=name, impl_trace=lines[-20:],
                                                   what="C19 probe %s: %s" % (name, next((l for l in lines if l.startswith("VERDICT")), "exit status %s" % rc))))
                 else:
                     out["traces_validated_against_impl"] += 1
+            shutil.rmtree(pdir19, ignore_errors=True)
     extra_coverage.setdefault(prop, {}).update(multi_iterator_histories=len(cases), single_iterator_projections=ok,
         rule_extra="multi-iterator stream: 1-2 fresh iterators and the clones that 1-3 threads create over one slice or range, one harness-chosen schedule; each iterator's history is projected out and replayed on the single-iterator model started at the position the clone read")
 
